@@ -298,8 +298,19 @@ fn c02_goldsrc_info_mod() { goldsrc_info(true) }
 /// A2S_PLAYER: n players (concrete), index byte, name, score (all i32),
 /// duration (all non-NaN f32 bit patterns); The Ship adds deaths and money.
 #[cfg(kani)]
-fn players(n: usize, the_ship: bool) {
+fn players(n: usize, the_ship: bool) { players_after_challenges(n, the_ship, 0) }
+
+/// `rounds` challenge replies (symbolic challenge values) precede the players
+/// reply: the decoded list is the same as without a challenge round.
+#[cfg(kani)]
+fn players_after_challenges(n: usize, the_ship: bool, rounds: usize) {
     let addr = any_addr_v4();
+    let mut i = 0;
+    while i < rounds {
+        let c: [u8; 4] = kani::any();
+        world().push_data(vec![0xFF, 0xFF, 0xFF, 0xFF, 0x41, c[0], c[1], c[2], c[3]]);
+        i += 1;
+    }
     let names = ["Al", "", "Bob"];
     let mut score = [0i32; 3];
     let mut dur = [0u32; 3];
@@ -362,6 +373,20 @@ c02_players!(c02_players_0, 0, false);
 c02_players!(c02_players_2, 2, false);
 c02_players!(c02_players_theship_2, 2, true);
 c02_players!(c02_t_players_1, 1, false);
+
+macro_rules! c02_players_challenged {
+    ($name:ident, $n:expr, $rounds:expr) => {
+        #[cfg(kani)]
+        #[kani::proof]
+        #[kani::unwind(12)]
+        #[kani::stub(alloc::fmt::format, stub_format)]
+        #[kani::stub(core::str::from_utf8, stub_from_utf8)]
+        fn $name() { players_after_challenges($n, false, $rounds) }
+    };
+}
+c02_players_challenged!(c02_players_1_after_2_challenges, 1, 2);
+c02_players_challenged!(c02_t_players_1_after_1_challenge, 1, 1);
+c02_players_challenged!(c02_t_players_2_after_3_challenges, 2, 3);
 c02_players!(c02_t_players_3, 3, false);
 c02_players!(c02_t_players_theship_3, 3, true);
 
